@@ -18,7 +18,8 @@ RULE = ("for every concrete kit class (85) and a generic module+vector class per
         "structure (IUPAC letters expanded at random, runs of 0..40), the same with one extra cutter site inserted anywhere in either "
         "orientation, instances of another class's structure, single-letter mutants; each padded with random backbone and rotated "
         "at random; every registry plasmid under its registry class (original and 2 rotations); generated and registry assemblies. "
-        "Non-trivial = the class accepted the record and the tuple was judged; distinct = distinct (class, sequence).")
+        "Non-trivial = the class accepted the record and the tuple was judged; distinct = distinct (class, sequence)."
+        " Second session: one accepted probe in five is repeated as an editable record (MutableSeq): looked at, edited in place (a site destroyed or one letter changed), looked at again through a new entity.")
 ASSUMPTIONS = [
     "records are circular and over ACGT plus the unknown base N (records with other ambiguity letters are counted as skipped)",
     "which of several valid cut pairs a class picks is not constrained",
